@@ -210,6 +210,25 @@ int __wrap_munmap (void *addr, size_t len) {
 			}
 	return r;
 }
+static long w_sems;            /* sem_open handles not yet closed */
+sem_t *__real_sem_open (const char *name, int oflag, ...);
+sem_t *__wrap_sem_open (const char *name, int oflag, ...) {
+	sem_t *r;
+	if (oflag & O_CREAT) {
+		va_list ap; va_start (ap, oflag);
+		mode_t mode = va_arg (ap, mode_t); unsigned value = va_arg (ap, unsigned);
+		va_end (ap);
+		r = __real_sem_open (name, oflag, mode, value);
+	} else r = __real_sem_open (name, oflag);
+	if (a_on && r != SEM_FAILED) w_sems++;
+	return r;
+}
+int __real_sem_close (sem_t *s);
+int __wrap_sem_close (sem_t *s) {
+	int r = __real_sem_close (s);
+	if (a_on && r == 0) w_sems--;
+	return r;
+}
 int __real_ftruncate (int fd, off_t len);
 int __wrap_ftruncate (int fd, off_t len) {
 	if (a_on && take_fail ("ftruncate")) { errno = EINVAL; return -1; }
@@ -346,7 +365,10 @@ static void take_snap (struct snap *s) {
 			char *path = strchr (line, '/');
 			if (!path) continue;
 			path[strcspn (path, "\n")] = 0;
+			/* semaphore mappings are not counted here: glibc maps a semaphore once per process however often it is
+			 * opened (and from a temporary name when it creates it); sem_open / sem_close are counted instead */
 			int mine = 0;
+			if (strstr (path, "/dev/shm/sem.")) continue;
 			for (int i = 0; i < NNAMES && !mine; i++)
 				for (int j = 0; j < 3; j++)
 					if (strstr (path, nm_file[i][j])) { mine = 1; break; }
@@ -367,7 +389,7 @@ static void take_snap (struct snap *s) {
 		}
 		__real_fclose (f);
 	}
-	s->maps += w_nmaps;
+	s->maps += w_nmaps + (int) w_sems;
 	/* names */
 	for (int i = 0; i < NNAMES; i++)
 		for (int j = 0; j < 3; j++) {
@@ -645,7 +667,7 @@ static char c_sa_addr (char **av) { int s = ai (av, 1), d = ai (av, 2); LIB (); 
 	pchar *r = p_socket_address_get_address (S[s].p); if (!r) return 'F'; put (d, T_STR, r); return 'S'; }
 static char c_sa_free (char **av) { int d = ai (av, 1); LIB (); NEED (d, T_SADDR); p_socket_address_free (S[d].p); clr (d); return 'S'; }
 
-/* socket slot: a = port (when bound), b = state (0 fresh, 1 bound/listening, 2 connected, 3 closed), c = kind (0 tcp, 1 udp);
+/* socket slot: a = port (when bound), b = state (0 fresh, 1 bound/listening, 2 connected, 3 closed, 4 after a refused connect), c = kind (0 tcp, 1 udp);
  * sh[0].k = connections waiting in the accept queue */
 static long sock_port (PSocket *s) { struct sockaddr_in sin; socklen_t l = sizeof sin;
 	if (getsockname (p_socket_get_fd (s), (struct sockaddr *) &sin, &l) != 0) return 0; return ntohs (sin.sin_port); }
@@ -681,6 +703,7 @@ static char c_sock_connect_refused (char **av) { int d = ai (av, 1), e = ai (av,
 	pboolean ok = p_socket_connect (S[d].p, a, e_in (e)); e_out (e);
 	p_socket_address_free (a);
 	if (ok) { S[d].b = 2; return 'S'; }
+	S[d].b = 4;                                     /* the kernel has bound it: it can neither listen nor connect again here */
 	return 'F'; }
 static char c_sock_accept (char **av) { int s = ai (av, 1), d = ai (av, 2), e = ai (av, 3); LIB (); NEED (s, T_SOCK); EMPTY (d); ERRARG2 (e, d, s);
 	if (S[s].b != 1 || S[s].c != 0) return '-';
@@ -1054,7 +1077,7 @@ static void seq_begin (long pid) {
 	names_remove ();
 	for (int i = 0; i < NSLOT; i++) clr (i);
 	memset (w_fail, 0, sizeof w_fail);
-	w_closes = w_badclose = w_keys = 0; w_nmaps = 0;
+	w_closes = w_badclose = w_keys = 0; w_nmaps = 0; w_sems = 0;
 	a_idx = a_calls = a_badfree = 0; a_nlive = 0; f_mode = 0; trn = 0; if (tr) tr[0] = 0;
 	noutcomes = 0; outcomes[0] = 0; dl_pending = 0;
 	take_snap (&base_snap);
